@@ -6,7 +6,7 @@
 (* subset). "@...@" strings are file-system placeholders the harness fills in.    *)
 EXTENDS Malformed, Json
 
-CONSTANTS Families      \* subset of {"jsonschema","openapi","cue","pipeline","passes","veneers","sequences","parameters","cycles","cyclepasses","cycleveneers","veneerpaths","ifexpr","discriminators","handtypes","drafts"} to emit
+CONSTANTS Families      \* subset of {"jsonschema","openapi","cue","pipeline","passes","veneers","sequences","parameters","cycles","cyclepasses","cycleveneers","veneerpaths","ifexpr","discriminators","handtypes","handtypeveneers","drafts"} to emit
 
 VARIABLES fam, base, m
 vars == <<fam, base, m>>
@@ -407,6 +407,17 @@ HandTypeCases == {[path |-> <<>>, mut |-> f, pos |-> 1, t |-> c, lang |-> k] : f
                  \cup {[path |-> <<>>, mut |-> f, pos |-> o, t |-> c, lang |-> 1] : f \in DOMAIN TypeFillers, o \in 2..Len(TypePositions), c \in 2..Len(TypePositions)}
 HandType(mm) == InPos(mm.pos, InPos(mm.t, TypeFillers[mm.mut]))
 
+\* the same positions and fillers in the types a builder transformation carries (properties / add_option / add_factory)
+VeneerTypeCarriers == <<"properties", "add_option", "add_factory">>
+VeneerCarrierDoc(k, t) ==
+  CASE k = 1 -> Veneer("builders", "properties", O(<<ByObj("Root"), P("set", A(<<FieldT("extra", t)>>))>>))
+    [] k = 2 -> Veneer("builders", "add_option", O(<<ByObj("Root"), P("option", O(<<P("name", S("withName")), P("comments", A(<<S("c")>>)),
+                  P("arguments", A(<<O(<<P("name", S("n")), P("type", t)>>)>>)),
+                  P("assignments", A(<<O(<<P("path", S("name")), P("method", S("direct")), P("value", O(<<P("argument", O(<<P("name", S("n")), P("type", t)>>))>>))>>)>>))>>))>>))
+    [] k = 3 -> Veneer("builders", "add_factory", O(<<ByObj("Root"), P("factory", O(<<P("name", S("Small")), P("arguments", A(<<O(<<P("name", S("n")), P("type", t)>>)>>)),
+                  P("options", A(<<O(<<P("name", S("name")), P("parameters", A(<<O(<<P("argument", O(<<P("name", S("n")), P("type", t)>>))>>)>>))>>)>>))>>))>>))
+VeneerHandTypeCases == {[path |-> <<>>, mut |-> f, pos |-> 1, t |-> c, lang |-> k] : f \in DOMAIN TypeFillers, c \in DOMAIN TypePositions, k \in DOMAIN VeneerTypeCarriers}
+
 (* ---- JSON Schema drafts: what the schema compiler lets through to cog's parser depends on the `$schema` the document names     *)
 (* (the draft-04/06/07 meta-schemas refuse an empty `enum`, draft-04 an empty `required`, ...; a document without `$schema` is    *)
 (* read as 2020-12). Every container- or string-valued site of a document that is valid under every draft, replaced by the EMPTY *)
@@ -476,6 +487,7 @@ Init == /\ fam \in Families
              [] fam = "discriminators" -> base = 1 /\ m \in {[path |-> <<>>, mut |-> k, pos |-> sh, t |-> pl, lang |-> g] :
                                                      k \in DOMAIN DiscKinds, sh \in DOMAIN DiscSharing, pl \in DOMAIN DiscPlaces, g \in DOMAIN DiscLangs}
              [] fam = "handtypes" -> base = 1 /\ m \in HandTypeCases
+             [] fam = "handtypeveneers" -> base = 1 /\ m \in VeneerHandTypeCases
              [] fam = "drafts" -> base \in DOMAIN DraftBases(1) /\ m \in {[path |-> p, mut |-> d] : p \in EmptySites(DraftBases(1)[base]), d \in DOMAIN DraftIds}
              [] fam = "cyclepasses" -> base \in DOMAIN CyclePassDocs /\ m = AsIs
              [] fam = "cycleveneers" -> base \in DOMAIN CycleVeneerDocs /\ m = AsIs
@@ -494,6 +506,10 @@ Emit ==
   THEN PrintT(<<"CASE", ToJson([fam |-> fam, base |-> base, class |-> "hand-written-type", keyword |-> TypePositions[m.t], path |-> <<>>, mut |-> m.mut,
                                 carrier |-> TypeCarriers[m.lang], outer |-> TypePositions[m.pos], inner |-> TypePositions[m.t], filler |-> m.mut,
                                 doc |-> CarrierDoc(m.lang, HandType(m))])>>)
+  ELSE IF fam = "handtypeveneers"
+  THEN PrintT(<<"CASE", ToJson([fam |-> fam, base |-> base, class |-> "hand-written-type", keyword |-> TypePositions[m.t], path |-> <<>>, mut |-> m.mut,
+                                carrier |-> VeneerTypeCarriers[m.lang], outer |-> TypePositions[m.pos], inner |-> TypePositions[m.t], filler |-> m.mut,
+                                doc |-> VeneerCarrierDoc(m.lang, HandType(m))])>>)
   ELSE IF fam = "drafts"
   THEN LET doc == DraftBases(m.mut)[base]
            p   == DraftPath(m.mut, m.path)
